@@ -147,6 +147,12 @@ class SemantivaOrchestrator(ABC):
 
         # Compute semantic IDs BEFORE on_pipeline_start (without instantiation)
         if trace is not None:
+            # Enrich a private copy below: the caller's canonical spec (cached and
+            # reused by Pipeline across runs) must stay as it was hashed.
+            canonical = {
+                **canonical,
+                "nodes": [dict(n) for n in canonical.get("nodes", [])],
+            }
             pipeline_id = compute_pipeline_id(canonical)
             node_uuids = [n["node_uuid"] for n in canonical.get("nodes", [])]
             upstream_map = compute_upstream_map(canonical)
